@@ -667,6 +667,8 @@ def run_session(case):
                     h.wait_on_input()
                     v = h.value
                     U(20, [c[1], ih_id[id(h)], 1 if h.input_successful() else 0, 0 if v is None else 1], v or "")
+            elif op == 24:
+                App.get_event_loop().process_signals()
             elif op == 22:
                 # self.connect(Custom_c, callback_k): SignalHandler.connect -> register_signal_handler(signal, callback, None)
                 scr, k = screens[me], c[2]
